@@ -258,7 +258,12 @@ func obsC05(in string) string {
 				cwd, rootArg = invocation(vroot, r)
 				desc += " root=" + rootArg
 			}
-			x := runAll(rootArg, cwd, cfgs, nil)
+			var env []string
+			if v >= kp {
+				// the files of a layout are parsed and converted concurrently: vary the schedule too
+				env = []string{fmt.Sprintf("KNUT_VERIF_SCHED=%d", vseed*31+uint64(v)), fmt.Sprintf("GOMAXPROCS=%d", []int{16, 2, 4}[v%3])}
+			}
+			x := runAll(rootArg, cwd, cfgs, env)
 			switch {
 			case x.check != b.check:
 				verdict = fmt.Sprintf("diff check %s vs %s variant=%s", b.check, x.check, desc)
